@@ -680,6 +680,15 @@ func drawGoReplaces(t *rapid.T, recs []Record, lhs map[string]bool, uniq func(fu
 			reqs = append(reqs, i)
 		}
 	}
+	var multi []int
+	for _, i := range reqs {
+		for _, j := range reqs {
+			if i != j && recs[i].Name == recs[j].Name {
+				multi = append(multi, i)
+				break
+			}
+		}
+	}
 	var dirs []Record
 	add := func(oldPath, oldVersion, newPath, newVersion string) {
 		if newPath == "" || lhs[oldPath+"@"+oldVersion] {
@@ -724,6 +733,10 @@ func drawGoReplaces(t *rapid.T, recs []Record, lhs map[string]bool, uniq func(fu
 		var p, v string
 		if len(reqs) > 0 {
 			r := recs[reqs[rapid.IntRange(0, len(reqs)-1).Draw(t, "target")]]
+			if len(multi) > 0 && coin(t, "target_multi", 2) {
+				// a path required at several versions
+				r = recs[multi[rapid.IntRange(0, len(multi)-1).Draw(t, "target_multi_i")]]
+			}
 			p, v = r.Name, r.Version
 		}
 		switch kind {
@@ -753,9 +766,14 @@ func drawGoReplaces(t *rapid.T, recs []Record, lhs map[string]bool, uniq func(fu
 			if !ok {
 				continue
 			}
+			umajor := pickInt(t, "umajor", 0, 1)
+			if strings.HasPrefix(q, "gopkg.in/") {
+				q += ".v1"
+				umajor = 1
+			}
 			nn, nv := rhs(q, "v1.0.0")
 			if coin(t, "unrequired_exact", 2) {
-				add(q, goVersion(t, pickInt(t, "umajor", 0, 1)), nn, nv)
+				add(q, goVersion(t, umajor), nn, nv)
 			} else {
 				add(q, "", nn, nv)
 			}
